@@ -342,6 +342,7 @@ class FlowParser:
                 RowParser(FlowRowModel, CellParser()),
                 table,
                 self.context,
+                include_column="include_if",
             )
         self.node_group_stack = [NodeGroup()]
         self.row_id_to_nodegroup = defaultdict()
